@@ -233,17 +233,31 @@ func RunCheck(opts RunOpts, t0 time.Time) (*Outcome, error) {
 				retry = append(retry, i)
 			}
 		}
-		if len(retry) > 0 && len(retry) <= 40 {
+		// two passes: 3x budget with four at a time, then (what is still without an answer) 6x budget with two at a
+		// time. A real violation usually fails many obligations: the cap keeps a badly broken tree from taking hours.
+		for pass, cfg := range []struct{ mult, par, max int }{{3, 4, 400}, {6, 2, 60}} {
+			if pass > 0 {
+				var again []int
+				for _, i := range retry {
+					if results[i].Status == "undecided" {
+						again = append(again, i)
+					}
+				}
+				retry = again
+			}
+			if len(retry) == 0 || len(retry) > cfg.max {
+				break
+			}
 			so2 := so
-			so2.Timeout1, so2.Timeout2, so2.Workers = so.Timeout1*3, so.Timeout2*3, 4
-			so2.Dir = filepath.Join(dir, "retry")
-			sem := make(chan struct{}, 4)
+			so2.Timeout1, so2.Timeout2, so2.Workers = so.Timeout1*cfg.mult, so.Timeout2*cfg.mult, cfg.par
+			so2.Dir = filepath.Join(dir, fmt.Sprintf("retry%d", pass))
+			sem := make(chan struct{}, cfg.par)
 			done := make(chan struct{})
 			for _, i := range retry {
 				i := i
 				go func() {
 					sem <- struct{}{}
-					r2 := vc.SolveOneExported(results[i].VC, results[i].Obl, 900000+i, so2)
+					r2 := vc.SolveOneExported(results[i].VC, results[i].Obl, 900000+pass*100000+i, so2)
 					r2.TimeS += results[i].TimeS
 					results[i] = r2
 					<-sem
